@@ -24,6 +24,10 @@ def run(ctx):
     M = LoopModel(ctx)
     R = Roles(M)
     fn = LOOP
+    # the reset itself: release_all forgets every held key on every path (shared with C06-R1)
+    from . import c06
+    from .. import kt
+    c06.release_all_rules(ctx, ck, kt.KT(ctx), "C12-R5")
     ck.analysed["segments"] = len(M.segments)
     ck.explanation = ("Flag identified by role (the only bool written with opposite constants in the On and Off arms; debug "
                       "name %r). Its value at each STEP/SEND is read off the segment: a constant after an assignment, or the "
